@@ -46,12 +46,12 @@ def trials_list_field(ctx: Ctx, sd: ClassInfo) -> str:
 def check_insert(ctx: Ctx, rid: str, ins: FuncInfo, leftF: str, rightF: str, listF: str) -> Dict[str, object]:
     """Relink shape + append-once of one InsertDataItem implementation.  Returns per-path summaries
     (used for the sibling comparison)."""
-    ex = ctx.explorer()
+    find = ins.cls.lookup('FindDataItemByOneDimensionalPoint')
+    ex = ctx.explorer(opaque={find} if find is not None else ())
     ps = ins.param_names
     selfv, new, right = var(ps[0]), var(ps[1]), var(ps[2])
     summaries = []
     n = 0
-    find = ins.cls.lookup('FindDataItemByOneDimensionalPoint')
     for p in C.normal_paths(ex.explore(ins)):
         n += 1
         hinted = C.has_lit(p.guards, Lit('isnone', key=key_of(right), pol=False))
